@@ -27,7 +27,11 @@ def box_line(rng, n, mode):
             if rng.random() < 0.5:
                 b[2] = f32(rng.uniform(0, 1))      # other score
             boxes.append(tuple(b)); continue
-        if mode == "cluster":
+        if mode == "tiny":
+            # frame-normalised coordinates: box areas of the order of 1e-5 (the coverage fraction is scale free)
+            cx, cy = rng.choice(centers)
+            xc, yc = cx / 2000.0 + rng.uniform(-0.004, 0.004), cy / 2000.0 + rng.uniform(-0.004, 0.004)
+        elif mode == "cluster":
             cx, cy = rng.choice(centers)
             xc, yc = cx + rng.uniform(-15, 15), cy + rng.uniform(-15, 15)
         else:
@@ -37,6 +41,8 @@ def box_line(rng, n, mode):
             xc, yc = p[3], p[4]
         aspect = rng.choice([0.5, 1.0, 2.0, rng.uniform(0.2, 3)])
         height = rng.choice([10.0, 20.0, 40.0, rng.uniform(2, 60)])
+        if mode == "tiny":
+            height = rng.choice([0.003, 0.004, 0.006, rng.uniform(0.002, 0.01)])
         if rng.random() < 0.07:
             if rng.random() < 0.5: aspect = rng.choice([0.0, -1.0])
             else: height = rng.choice([0.0, -5.0])
@@ -60,7 +66,7 @@ def generate(rng, tier):
     cases = []
     for i in range(n):
         k = rng.choice([0, 1, 2, 3, 5, 8, 12, 20, 40]) if i % 3 == 0 else rng.randint(0, 40)
-        cases.append([box_line(rng, k, rng.choice(["cluster", "cluster", "sparse", "noscore"]))])
+        cases.append([box_line(rng, k, rng.choice(["cluster", "cluster", "sparse", "noscore", "tiny"]))])
     return cases
 
 
